@@ -18,7 +18,7 @@ ID = 'C05'
 LEVEL = 'exploration'
 RULE = ('base corpus of valid formulas (operator chains/trees of C01 + one or more formulas per supported function) each mutated '
         'by: append / insert / delete a token, duplicate an operator, drop / add a bracket, add an argument, make two operands '
-        'adjacent, double a quote, upper-case exponent, trailing %, operand % operand; whitespace (blank, tab, newline x1-3) inserted at every token '
+        'adjacent, double a quote, upper-case exponent, trailing %, operand % operand; empty arguments (doubled / leading / trailing separators, must be refused); whitespace (blank, tab, newline x1-3) inserted at every token '
         'boundary; "," <-> ";" swapped; every supported function x 0..7 arguments (exhaustive). Each text is translated through '
         'the entry-point API with conservation monitors on Lexer.parse / EntryPointToken.get. Non-trivial: a mutant that is not '
         'itself a valid formula of the reference grammar (reject side), or a whitespace/separator variant, or an arity outside '
@@ -301,6 +301,56 @@ def _count_args(text):
     return n
 
 
+def empty_argument_variants(f, rng):
+    """texts with an EMPTY argument (doubled / leading / trailing separator, also with blanks in between): no token set of the
+    grammar defines an empty argument, so every one of them has to be refused"""
+    toks = split(f)
+    seps = [j for j, x in enumerate(toks) if x in ',;']
+    out = []
+    for j in seps[:3]:
+        for extra in (toks[j], ',' if toks[j] == ';' else ';', ' ' + toks[j], toks[j] + ' '):
+            t = list(toks)
+            t.insert(j, extra)
+            out.append('=' + ''.join(t))
+    opens = [j for j, x in enumerate(toks) if x == '(' and j > 0 and toks[j - 1].isalpha() and j + 1 < len(toks) and toks[j + 1] != ')']
+    for j in opens[:1]:
+        t = list(toks)
+        t.insert(j + 1, ',')
+        out.append('=' + ''.join(t))
+    closes = [j for j, x in enumerate(toks) if x == ')' and j > 0 and toks[j - 1] not in '(,;']
+    for j in closes[-1:]:
+        t = list(toks)
+        t.insert(j, rng.choice(',;'))
+        out.append('=' + ''.join(t))
+    return sorted(set(out))
+
+
+def run_must_reject(ctx, texts, tag):
+    r = ctx.r
+    tmon = TranslateMonitor.install(r)
+    per = 40
+    for off in range(0, len(texts), per):
+        batch = texts[off:off + per]
+        cells = dict(BASEC)
+        addrs = []
+        for i, text in enumerate(batch):
+            a = f'J{i + 8}'
+            cells[a] = text
+            addrs.append(a)
+        spec = wbspec.spec(wbspec.sheet('S1', cells))
+        book = pipeline.Book(spec, ctx.workdir, name=f'{tag}{off}', per_cell=True, cells_of_interest=[])
+        for a, text in zip(addrs, batch):
+            out, _ = observe(book, 0, a, tmon)
+            r.ev()
+            r.count('empty_argument_texts')
+            r.nt(text)
+            if out.ok or out.phase == 'evaluate':
+                report(r, ID, None, {'text': text, 'how': 'empty-argument'}, out.brief(), 'E2PyclParserException (an empty argument is not in the grammar)',
+                       monitor='empty-argument-accepted')
+            elif out.kind == 'FOREIGN_EXC':
+                report(r, ID, None, {'text': text, 'how': 'empty-argument'}, out.brief(), 'E2PyclParserException', monitor='reject-with-parser-exception')
+
+
 def run_mutate(shard, ctx):
     r, rng = ctx.r, ctx.rng
     import random
@@ -314,13 +364,20 @@ def run_mutate(shard, ctx):
         for m in mutants(f, rng, shard['k']):
             items.append((m, 'mutant', None))
     run_texts(ctx, items, 'm')
-    r.sample({'base': mine[:2], 'mutants': [t for t, h, g in items if h == 'mutant'][:6], 'whitespace': [t for t, h, g in items if h == 'ws'][:3]})
+    empt = []
+    for f in mine:
+        if any(ch in f for ch in ',;') and '"' not in f:
+            empt += empty_argument_variants(f, rng)
+    run_must_reject(ctx, empt[:400], 'e')
+    r.sample({'base': mine[:2], 'empty_arguments': empt[:4], 'mutants': [t for t, h, g in items if h == 'mutant'][:6], 'whitespace': [t for t, h, g in items if h == 'ws'][:3]})
 
 
 def run_shard(shard, ctx):
     if 'replay' in shard:
         c = shard['replay']
         items = [(c['text'], c.get('how', 'mutant'), 0 if 'base' in c else None)]
+        if c.get('how') == 'empty-argument':
+            return run_must_reject(ctx, [c['text']], 'rep')
         if 'base' in c:
             items.insert(0, (c['base'], 'base', 0))
         return run_texts(ctx, items, 'rep')
